@@ -32,7 +32,7 @@ CONFIG = {
     'quick': {'shards': 16, 'cases': 4, 'timeout': 900, 'floor': 30},
     'thorough': {'shards': 32, 'cases': 60, 'timeout': 3400, 'floor': 900},
 }
-REQUIRED = ['bounds_dict_not_in_parameter_order', 'contract_acquire', 'acq_LCBSC', 'acq_MaxVar', 'acq_RandMaxVar_metropolis', 'acq_RandMaxVar_nuts', 'acq_ExpIntVar', 'acq_UniformAcquisition',
+REQUIRED = ['randmaxvar_large_batches', 'randmaxvar_batch_refused', 'bounds_dict_not_in_parameter_order', 'contract_acquire', 'acq_LCBSC', 'acq_MaxVar', 'acq_RandMaxVar_metropolis', 'acq_RandMaxVar_nuts', 'acq_ExpIntVar', 'acq_UniformAcquisition',
             'acq_gradient_checked', 'e2e_runs', 'e2e_scheduled_runs', 'e2e_evidence_compared', 'e2e_acquired_points_checked', 'noise_dict', 'noise_scalar',
             'prior_wider_than_bounds', 'prior_inside_bounds', 'init_precomputed', 'init_zero', 'init_count']
 
@@ -156,7 +156,16 @@ def run_direct(ctx, case):
             try:
                 acq = cls(gp, prior=prior, seed=int(rs.randint(1000)), **kw)
                 n = int(rs.randint(1, 6))
-                acq.acquire(n, t=int(rs.randint(0, 5)))
+                if cls is RandMaxVar and rs.rand() < 0.5:
+                    # up to and beyond what the sampler keeps after its warm-up: exactly n points or a refusal, never fewer
+                    n = int(rs.randint(1, kw['n_samples'] + 2))
+                    ctx.event('randmaxvar_large_batches')
+                try:
+                    acq.acquire(n, t=int(rs.randint(0, 5)))
+                except ValueError as e:
+                    if 'The number of acquisitions' not in str(e):
+                        raise
+                    ctx.event('randmaxvar_batch_refused')
                 ctx.event('acq_' + label)
                 ctx.event(noise_kind)
                 if cls in (LCBSC, MaxVar):
